@@ -1,8 +1,1642 @@
-//! C18 – not implemented yet.
-use mvlib::Ctx;
-use serde_json::Value;
+//! C18 – unit-test verdicts reflect the emulated machine state.
+//!
+//! Bounded-exhaustive enumeration of `.test` programs against a reference 6502 interpreter
+//! written here (documented binary-mode semantics of exactly the enumerated instruction subset).
+//!
+//! Space: test bodies = all sequences of <= k instructions over a 14-instruction alphabet, inside
+//! three frames (straight line / counted loop / subroutine called twice), preceded by a fixed
+//! prologue that makes every asserted quantity independent of the emulator's initial state, with
+//! ONE `.assert` in one gap (every gap in turn, every assertion kind, value taken from the
+//! reference at the 1st or 2nd dynamic visit of that gap, true or off-by-one, with and without a
+//! custom message); plus two-bank programs for the isolation clause.
+//!
+//! Oracle: pass iff the reference reaches BRK and the assertion holds at every dynamic visit of
+//! its gap; otherwise failure at that assertion (line of the `.assert`, its message). Programs
+//! whose reference run does not reach BRK within the step budget and whose assertion never fails
+//! get no verdict (the statement is silent).
+//!
+//! Every case runs in-process through the real `TestRunner`; a stratified subset additionally
+//! runs through the real `mos test` binary (exit status, stdout).
 
-pub fn run(_ctx: &Ctx, _replay: Option<&Value>) -> i32 {
-    eprintln!("C18: engine not implemented yet");
-    2
+use crate::test_runner::{ExecuteResult, TestRunner};
+use mos_core::parser::source::InMemoryParsingSource;
+use mos_core::parser::IdentifierPath;
+use mvlib::{fnv_str, Ctx, Finding};
+use rayon::prelude::*;
+use serde_json::{json, Value};
+use std::collections::{BTreeMap, BTreeSet, HashMap};
+use std::path::{Path, PathBuf};
+use std::sync::atomic::{AtomicU64, Ordering};
+use std::sync::Mutex;
+
+/// start of the default segment as implemented (the guide says $2000; the code uses $c000). Only
+/// the `* == here` kind depends on it; the bank programs use explicit segment starts.
+const BASE: u16 = 0xc000;
+/// reference step budget (longest terminating program of the space: 256 iterations x 5 + frame)
+const REF_BUDGET: usize = 6000;
+/// cap on `execute_instruction` calls of the real runner (it has no limit of its own)
+const RUNNER_CAP: usize = 8000;
+const CUSTOM_MSG: &str = "custom msg 18";
+const BIN_TIMEOUT_MS: u64 = 30_000;
+const BATCH: usize = 6;
+
+// ------------------------------------------------------------------------------------------
+// instruction subset + reference interpreter
+// ------------------------------------------------------------------------------------------
+
+#[derive(Clone, Copy, Debug, PartialEq, Eq)]
+enum Op {
+    Lda(u8),
+    Ldx(u8),
+    Inx,
+    Dex,
+    Tax,
+    Sta(u8),
+    Inc(u8),
+    Adc(u8),
+    Sbc(u8),
+    Cmp(u8),
+    And(u8),
+    Clc,
+    Sec,
+    Cld,
+    Bne(&'static str),
+    Jsr(&'static str),
+    Rts,
+    Brk,
+}
+
+impl Op {
+    fn size(self) -> u16 {
+        match self {
+            Op::Lda(_) | Op::Ldx(_) | Op::Adc(_) | Op::Sbc(_) | Op::Cmp(_) | Op::And(_) => 2,
+            Op::Sta(_) | Op::Inc(_) => 2, // zero page
+            Op::Bne(_) => 2,
+            Op::Jsr(_) => 3,
+            _ => 1,
+        }
+    }
+    fn text(self) -> String {
+        fn imm(v: u8) -> String {
+            if v < 10 {
+                format!("#{}", v)
+            } else {
+                format!("#${:02x}", v)
+            }
+        }
+        match self {
+            Op::Lda(v) => format!("lda {}", imm(v)),
+            Op::Ldx(v) => format!("ldx {}", imm(v)),
+            Op::Inx => "inx".into(),
+            Op::Dex => "dex".into(),
+            Op::Tax => "tax".into(),
+            Op::Sta(a) => format!("sta ${:02x}", a),
+            Op::Inc(a) => format!("inc ${:02x}", a),
+            Op::Adc(v) => format!("adc {}", imm(v)),
+            Op::Sbc(v) => format!("sbc {}", imm(v)),
+            Op::Cmp(v) => format!("cmp {}", imm(v)),
+            Op::And(v) => format!("and {}", imm(v)),
+            Op::Clc => "clc".into(),
+            Op::Sec => "sec".into(),
+            Op::Cld => "cld".into(),
+            Op::Bne(l) => format!("bne {}", l),
+            Op::Jsr(l) => format!("jsr {}", l),
+            Op::Rts => "rts".into(),
+            Op::Brk => "brk".into(),
+        }
+    }
+}
+
+const ALPHA: [Op; 14] = [
+    Op::Lda(0),
+    Op::Lda(0x80),
+    Op::Ldx(2),
+    Op::Inx,
+    Op::Dex,
+    Op::Tax,
+    Op::Sta(0x10),
+    Op::Inc(0x10),
+    Op::Adc(0x7f),
+    Op::Sbc(1),
+    Op::Cmp(1),
+    Op::And(0x0f),
+    Op::Clc,
+    Op::Sec,
+];
+
+/// Makes A, X, ram($10), Z, N, C, D defined whatever the emulator starts with (V is never asserted).
+const PROLOGUE: [Op; 5] = [Op::Lda(0), Op::Tax, Op::Sta(0x10), Op::Clc, Op::Cld];
+
+#[derive(Clone, Copy, Debug, PartialEq, Eq)]
+struct St {
+    pc: u16,
+    a: u8,
+    x: u8,
+    m: u8, // ram($10)
+    z: bool,
+    c: bool,
+    n: bool,
+    v: bool,
+    d: bool,
+}
+
+impl St {
+    fn zeros() -> St {
+        St { pc: 0, a: 0, x: 0, m: 0, z: false, c: false, n: false, v: false, d: false }
+    }
+    fn ones() -> St {
+        St { pc: 0, a: 0xff, x: 0xff, m: 0xff, z: true, c: true, n: true, v: true, d: true }
+    }
+    fn zn(&mut self, v: u8) {
+        self.z = v == 0;
+        self.n = v & 0x80 != 0;
+    }
+    fn adc(&mut self, v: u8) {
+        let sum = self.a as u16 + v as u16 + self.c as u16;
+        let res = sum as u8;
+        self.c = sum > 0xff;
+        self.v = (!(self.a ^ v) & (self.a ^ res) & 0x80) != 0;
+        self.a = res;
+        self.zn(res);
+    }
+    /// the part of the state an assertion of this engine can observe
+    fn observable(&self) -> (u16, u8, u8, u8, bool, bool) {
+        (self.pc, self.a, self.x, self.m, self.z, self.c)
+    }
+}
+
+#[derive(Clone, Copy, Debug, PartialEq, Eq, Hash, PartialOrd, Ord)]
+enum Frame {
+    Straight,
+    Loop,
+    Sub,
+}
+
+impl Frame {
+    fn name(self) -> &'static str {
+        match self {
+            Frame::Straight => "straight",
+            Frame::Loop => "loop",
+            Frame::Sub => "sub",
+        }
+    }
+    fn from_name(s: &str) -> Option<Frame> {
+        match s {
+            "straight" => Some(Frame::Straight),
+            "loop" => Some(Frame::Loop),
+            "sub" => Some(Frame::Sub),
+            _ => None,
+        }
+    }
+}
+
+#[derive(Clone, Debug)]
+enum Item {
+    Op(Op),
+    Label(&'static str),
+    Gap(String),
+}
+
+struct Prog {
+    items: Vec<Item>,
+    /// (address, op) in layout order
+    ops: Vec<(u16, Op)>,
+    by_addr: HashMap<u16, usize>,
+    labels: HashMap<&'static str, u16>,
+    /// gap index -> (name, address of the instruction that follows)
+    gaps: Vec<(String, u16)>,
+    gap_at: HashMap<u16, usize>,
+}
+
+/// The gaps that are kept are those whose address identifies them uniquely *and* whose textual
+/// position is on the executed path exactly when the PC is there. Excluded (statement silent):
+/// the gap directly before a label that is a jump target (`ldx #2 / <here> / l:` and
+/// `brk / <here> / s:`) – by PC it coincides with the gap after the label.
+fn build_items(frame: Frame, body: &[usize]) -> Vec<Item> {
+    let mut it: Vec<Item> = PROLOGUE.iter().map(|o| Item::Op(*o)).collect();
+    match frame {
+        Frame::Straight => {
+            for (i, b) in body.iter().enumerate() {
+                it.push(Item::Gap(format!("before-b{}", i)));
+                it.push(Item::Op(ALPHA[*b]));
+            }
+            it.push(Item::Gap("before-brk".into()));
+            it.push(Item::Op(Op::Brk));
+        }
+        Frame::Loop => {
+            it.push(Item::Gap("before-ldx".into()));
+            it.push(Item::Op(Op::Ldx(2)));
+            it.push(Item::Label("l"));
+            for (i, b) in body.iter().enumerate() {
+                it.push(Item::Gap(format!("loop-before-b{}", i)));
+                it.push(Item::Op(ALPHA[*b]));
+            }
+            it.push(Item::Gap("loop-before-dex".into()));
+            it.push(Item::Op(Op::Dex));
+            it.push(Item::Gap("loop-before-bne".into()));
+            it.push(Item::Op(Op::Bne("l")));
+            it.push(Item::Gap("before-brk".into()));
+            it.push(Item::Op(Op::Brk));
+        }
+        Frame::Sub => {
+            it.push(Item::Gap("before-jsr1".into()));
+            it.push(Item::Op(Op::Jsr("s")));
+            it.push(Item::Gap("before-jsr2".into()));
+            it.push(Item::Op(Op::Jsr("s")));
+            it.push(Item::Gap("before-brk".into()));
+            it.push(Item::Op(Op::Brk));
+            it.push(Item::Label("s"));
+            for (i, b) in body.iter().enumerate() {
+                it.push(Item::Gap(format!("sub-before-b{}", i)));
+                it.push(Item::Op(ALPHA[*b]));
+            }
+            it.push(Item::Gap("sub-before-rts".into()));
+            it.push(Item::Op(Op::Rts));
+        }
+    }
+    it
+}
+
+fn layout(items: Vec<Item>, base: u16) -> Prog {
+    let mut addr = base;
+    let mut ops = vec![];
+    let mut by_addr = HashMap::new();
+    let mut labels = HashMap::new();
+    let mut gaps = vec![];
+    let mut gap_at = HashMap::new();
+    for it in &items {
+        match it {
+            Item::Op(op) => {
+                by_addr.insert(addr, ops.len());
+                ops.push((addr, *op));
+                addr += op.size();
+            }
+            Item::Label(l) => {
+                labels.insert(*l, addr);
+            }
+            Item::Gap(name) => {
+                assert!(!gap_at.contains_key(&addr), "two gaps at one address");
+                gap_at.insert(addr, gaps.len());
+                gaps.push((name.clone(), addr));
+            }
+        }
+    }
+    Prog { items, ops, by_addr, labels, gaps, gap_at }
+}
+
+struct RefRun {
+    /// per gap: the machine state at each dynamic visit (before the following instruction)
+    visits: Vec<Vec<St>>,
+    terminated: bool,
+    steps: usize,
+}
+
+fn reference(p: &Prog, init: St, base: u16) -> RefRun {
+    let mut s = init;
+    s.pc = base;
+    let mut visits: Vec<Vec<St>> = vec![vec![]; p.gaps.len()];
+    let mut stack: Vec<u16> = vec![];
+    let mut steps = 0;
+    loop {
+        if let Some(g) = p.gap_at.get(&s.pc) {
+            visits[*g].push(s);
+        }
+        let (addr, op) = p.ops[*p.by_addr.get(&s.pc).expect("reference: pc outside program")];
+        if op == Op::Brk {
+            return RefRun { visits, terminated: true, steps };
+        }
+        if steps >= REF_BUDGET {
+            return RefRun { visits, terminated: false, steps };
+        }
+        steps += 1;
+        let mut next = addr + op.size();
+        match op {
+            Op::Lda(v) => {
+                s.a = v;
+                s.zn(v);
+            }
+            Op::Ldx(v) => {
+                s.x = v;
+                s.zn(v);
+            }
+            Op::Inx => {
+                s.x = s.x.wrapping_add(1);
+                s.zn(s.x);
+            }
+            Op::Dex => {
+                s.x = s.x.wrapping_sub(1);
+                s.zn(s.x);
+            }
+            Op::Tax => {
+                s.x = s.a;
+                s.zn(s.x);
+            }
+            Op::Sta(a) => {
+                assert_eq!(a, 0x10);
+                s.m = s.a;
+            }
+            Op::Inc(a) => {
+                assert_eq!(a, 0x10);
+                s.m = s.m.wrapping_add(1);
+                s.zn(s.m);
+            }
+            Op::Adc(v) => {
+                assert!(!s.d, "reference: decimal mode is outside the model");
+                s.adc(v);
+            }
+            Op::Sbc(v) => {
+                assert!(!s.d, "reference: decimal mode is outside the model");
+                s.adc(!v);
+            }
+            Op::Cmp(v) => {
+                let r = s.a.wrapping_sub(v);
+                s.c = s.a >= v;
+                s.zn(r);
+            }
+            Op::And(v) => {
+                s.a &= v;
+                s.zn(s.a);
+            }
+            Op::Clc => s.c = false,
+            Op::Sec => s.c = true,
+            Op::Cld => s.d = false,
+            Op::Bne(l) => {
+                if !s.z {
+                    next = p.labels[l];
+                }
+            }
+            Op::Jsr(l) => {
+                stack.push(next);
+                next = p.labels[l];
+            }
+            Op::Rts => {
+                next = stack.pop().expect("reference: rts without jsr");
+            }
+            Op::Brk => unreachable!(),
+        }
+        s.pc = next;
+    }
+}
+
+// ------------------------------------------------------------------------------------------
+// assertions
+// ------------------------------------------------------------------------------------------
+
+#[derive(Clone, Copy, Debug, PartialEq, Eq, Hash, PartialOrd, Ord)]
+enum Kind {
+    None,
+    A,
+    X,
+    Ram,
+    Zero,
+    Carry,
+    Pc,
+    Const,
+}
+
+const KINDS: [Kind; 7] = [Kind::A, Kind::X, Kind::Ram, Kind::Zero, Kind::Carry, Kind::Pc, Kind::Const];
+
+impl Kind {
+    fn name(self) -> &'static str {
+        match self {
+            Kind::None => "none",
+            Kind::A => "cpu.a",
+            Kind::X => "cpu.x",
+            Kind::Ram => "ram",
+            Kind::Zero => "flags.zero",
+            Kind::Carry => "flags.carry",
+            Kind::Pc => "pc",
+            Kind::Const => "const",
+        }
+    }
+    fn state_dependent(self) -> bool {
+        matches!(self, Kind::A | Kind::X | Kind::Ram | Kind::Zero | Kind::Carry)
+    }
+}
+
+#[derive(Clone, Copy, Debug, PartialEq, Eq)]
+enum Pred {
+    A(u32),
+    X(u32),
+    M(u32),
+    Z(bool),
+    C(bool),
+    Pc(u32),
+    Const(bool),
+}
+
+impl Pred {
+    fn holds(self, s: &St) -> bool {
+        match self {
+            Pred::A(v) => s.a as u32 == v,
+            Pred::X(v) => s.x as u32 == v,
+            Pred::M(v) => s.m as u32 == v,
+            Pred::Z(b) => s.z == b,
+            Pred::C(b) => s.c == b,
+            Pred::Pc(v) => s.pc as u32 == v,
+            Pred::Const(b) => b,
+        }
+    }
+    fn expr(self) -> String {
+        match self {
+            Pred::A(v) => format!("cpu.a == {}", v),
+            Pred::X(v) => format!("cpu.x == {}", v),
+            Pred::M(v) => format!("ram($10) == {}", v),
+            Pred::Z(true) => "cpu.flags.zero".into(),
+            Pred::Z(false) => "!cpu.flags.zero".into(),
+            Pred::C(true) => "cpu.flags.carry".into(),
+            Pred::C(false) => "!cpu.flags.carry".into(),
+            Pred::Pc(v) => format!("* == ${:04x}", v),
+            Pred::Const(true) => "c == 5".into(),
+            Pred::Const(false) => "c == 6".into(),
+        }
+    }
+}
+
+/// predicate that is true (`truth`) / false (`!truth`) in state `s`
+fn make_pred(kind: Kind, s: &St, truth: bool) -> Pred {
+    let off = if truth { 0 } else { 1 };
+    match kind {
+        Kind::A => Pred::A(s.a as u32 + off),
+        Kind::X => Pred::X(s.x as u32 + off),
+        Kind::Ram => Pred::M(s.m as u32 + off),
+        Kind::Zero => Pred::Z(s.z == truth),
+        Kind::Carry => Pred::C(s.c == truth),
+        Kind::Pc => Pred::Pc(s.pc as u32 + off),
+        Kind::Const => Pred::Const(truth),
+        Kind::None => unreachable!(),
+    }
+}
+
+#[derive(Clone, Debug, PartialEq, Eq)]
+enum Expect {
+    Pass,
+    /// fails at this dynamic visit (1-based) of the assertion
+    Fail(usize),
+    NoVerdict,
+}
+
+impl Expect {
+    fn visit_tag(&self) -> String {
+        match self {
+            Expect::Fail(1) => "v1".into(),
+            Expect::Fail(2) => "v2".into(),
+            Expect::Fail(_) => "v3+".into(),
+            _ => "vnone".into(),
+        }
+    }
+    fn text(&self) -> String {
+        match self {
+            Expect::Pass => "pass".into(),
+            Expect::Fail(v) => format!("fail at visit {} of the assertion", v),
+            Expect::NoVerdict => "no verdict".into(),
+        }
+    }
+    fn from_text(s: &str) -> Expect {
+        if s == "pass" {
+            Expect::Pass
+        } else if let Some(r) = s.strip_prefix("fail at visit ") {
+            Expect::Fail(r.split(' ').next().and_then(|n| n.parse().ok()).unwrap_or(1))
+        } else {
+            Expect::NoVerdict
+        }
+    }
+}
+
+// ------------------------------------------------------------------------------------------
+// rendering
+// ------------------------------------------------------------------------------------------
+
+/// One `.test` with its expectation, as part of a source file.
+#[derive(Clone, Debug)]
+struct TestExp {
+    /// identifier path of the test ("t", "outer.t", …)
+    path: String,
+    expect: Expect,
+    /// 1-based line of the `.assert` in the file (None: no assertion)
+    assert_line: Option<usize>,
+    /// length of that line (columns accepted: from the `.assert` keyword to the end of the line)
+    assert_line_len: usize,
+    expr: String,
+    custom_msg: bool,
+    /// "verdict:<frame>:<kind>"
+    sig_prefix: String,
+    desc: Value,
+}
+
+impl TestExp {
+    fn to_json(&self) -> Value {
+        json!({
+            "path": self.path, "expect": self.expect.text(), "assert_line": self.assert_line,
+            "assert_line_len": self.assert_line_len, "expr": self.expr, "custom_msg": self.custom_msg,
+            "sig_prefix": self.sig_prefix, "desc": self.desc,
+        })
+    }
+    fn from_json(v: &Value) -> Option<TestExp> {
+        Some(TestExp {
+            path: v.get("path")?.as_str()?.to_string(),
+            expect: Expect::from_text(v.get("expect")?.as_str()?),
+            assert_line: v.get("assert_line").and_then(|l| l.as_u64()).map(|l| l as usize),
+            assert_line_len: v.get("assert_line_len").and_then(|l| l.as_u64()).unwrap_or(0) as usize,
+            expr: v.get("expr").and_then(|s| s.as_str()).unwrap_or("").to_string(),
+            custom_msg: v.get("custom_msg").and_then(|b| b.as_bool()).unwrap_or(false),
+            sig_prefix: v.get("sig_prefix").and_then(|s| s.as_str()).unwrap_or("verdict:?:?").to_string(),
+            desc: v.get("desc").cloned().unwrap_or(Value::Null),
+        })
+    }
+}
+
+const ASSERT_COL: usize = 5; // 4 spaces of indentation
+
+fn assert_text(expr: &str, custom: bool) -> String {
+    if custom {
+        format!("    .assert {} \"{}\"", expr, CUSTOM_MSG)
+    } else {
+        format!("    .assert {}", expr)
+    }
+}
+
+/// Appends the test to `lines`; returns the 1-based line of the `.assert` (if any).
+/// `wrap` = Some(scope name): the test is put into a named scope that defines `.const c = 5`
+/// (the file must then define a shadowed file-level `.const c = 7`).
+fn render_test(
+    lines: &mut Vec<String>,
+    p: &Prog,
+    assertion: Option<(usize, &str, bool)>,
+    name: &str,
+    wrap: Option<&str>,
+) -> Option<usize> {
+    let mut assert_line = None;
+    if let Some(w) = wrap {
+        lines.push(format!("{}: {{", w));
+        lines.push("    .const c = 5".into());
+    }
+    lines.push(format!(".test \"{}\" {{", name));
+    let mut gap_idx = 0;
+    for it in &p.items {
+        match it {
+            Item::Op(op) => lines.push(format!("    {}", op.text())),
+            Item::Label(l) => lines.push(format!("{}:", l)),
+            Item::Gap(_) => {
+                if let Some((g, expr, custom)) = assertion {
+                    if g == gap_idx {
+                        lines.push(assert_text(expr, custom));
+                        assert_line = Some(lines.len());
+                    }
+                }
+                gap_idx += 1;
+            }
+        }
+    }
+    lines.push("}".into());
+    if wrap.is_some() {
+        lines.push("}".into());
+    }
+    assert_line
+}
+
+// ------------------------------------------------------------------------------------------
+// observation: in-process and real binary
+// ------------------------------------------------------------------------------------------
+
+#[derive(Clone, Debug, PartialEq, Eq)]
+enum Verdict {
+    Pass,
+    Fail,
+    /// still running after RUNNER_CAP instructions
+    Running,
+    /// TestRunner::new / execute_instruction returned an error
+    Error(String),
+    Panic(String),
+    /// (binary) no line for this test in the output
+    Missing,
+}
+
+#[derive(Clone, Debug)]
+struct Observed {
+    verdict: Verdict,
+    /// "file:line:col: error: message" for a failure
+    diag: Option<String>,
+}
+
+impl Observed {
+    fn text(&self) -> String {
+        match (&self.verdict, &self.diag) {
+            (Verdict::Pass, _) => "pass".into(),
+            (Verdict::Fail, Some(d)) => format!("failed: {}", d),
+            (Verdict::Fail, None) => "failed (no diagnostic found)".into(),
+            (Verdict::Running, _) => format!("no verdict: still running after {} instructions", RUNNER_CAP),
+            (Verdict::Error(e), _) => format!("error: {}", e),
+            (Verdict::Panic(e), _) => format!("panic: {}", e),
+            (Verdict::Missing, _) => "no line for this test in the output".into(),
+        }
+    }
+}
+
+fn run_inproc(source: &str, path: &str) -> Observed {
+    let r = mvlib::panics::guard(|| -> Result<Observed, String> {
+        let src = InMemoryParsingSource::new().add("test.asm", source).into();
+        let mut runner = TestRunner::new(src, Path::new("test.asm"), &IdentifierPath::from(path))
+            .map_err(|e| format!("{}", e))?;
+        for _ in 0..RUNNER_CAP {
+            match runner.execute_instruction().map_err(|e| format!("{}", e))? {
+                ExecuteResult::Running => {}
+                ExecuteResult::TestSuccess(_) => {
+                    return Ok(Observed { verdict: Verdict::Pass, diag: None });
+                }
+                ExecuteResult::TestFailed(_, failure) => {
+                    return Ok(Observed {
+                        verdict: Verdict::Fail,
+                        diag: Some(failure.diagnostic.to_string().trim().to_string()),
+                    });
+                }
+            }
+        }
+        Ok(Observed { verdict: Verdict::Running, diag: None })
+    });
+    match r {
+        Ok(Ok(o)) => o,
+        Ok(Err(e)) => Observed { verdict: Verdict::Error(e.trim().to_string()), diag: None },
+        Err(p) => Observed { verdict: Verdict::Panic(format!("{} at {}", p.message, p.site)), diag: None },
+    }
+}
+
+/// "path:line:col: error: message" -> (path, line, col, message)
+fn parse_diag(d: &str) -> Option<(String, usize, usize, String)> {
+    let first = d.lines().next()?;
+    let idx = first.find(": error: ")?;
+    let (loc, msg) = first.split_at(idx);
+    let msg = &msg[": error: ".len()..];
+    let mut parts = loc.rsplitn(3, ':');
+    let col: usize = parts.next()?.trim().parse().ok()?;
+    let line: usize = parts.next()?.trim().parse().ok()?;
+    let file = parts.next()?.to_string();
+    Some((file, line, col, msg.to_string()))
+}
+
+fn norm(s: &str) -> String {
+    s.chars().filter(|c| !c.is_whitespace()).collect::<String>().to_lowercase()
+}
+
+/// The oracle comparison. Returns (class, explanation) for a disagreement.
+fn judge(t: &TestExp, o: &Observed, file_name: &str) -> Option<(&'static str, String)> {
+    match &t.expect {
+        Expect::NoVerdict => None,
+        Expect::Pass => match &o.verdict {
+            Verdict::Pass => None,
+            Verdict::Fail => Some(("spurious", format!("expected pass, observed {}", o.text()))),
+            _ => Some(("no-verdict", format!("expected pass, observed {}", o.text()))),
+        },
+        Expect::Fail(visit) => match &o.verdict {
+            Verdict::Pass | Verdict::Running => Some((
+                "missed",
+                format!(
+                    "the assertion `{}` is false at its dynamic visit {} (reference interpreter); observed {}",
+                    t.expr,
+                    visit,
+                    o.text()
+                ),
+            )),
+            Verdict::Fail => {
+                let d = o.diag.clone().unwrap_or_default();
+                let want_line = t.assert_line.unwrap_or(0);
+                match parse_diag(&d) {
+                    None => Some(("wrong-location", format!("failure without a parsable location: {}", d))),
+                    Some((file, line, col, msg)) => {
+                        let file_ok = Path::new(&file).file_name().map(|f| f == file_name).unwrap_or(false);
+                        if !file_ok || line != want_line || col < ASSERT_COL || col > t.assert_line_len.max(ASSERT_COL) {
+                            Some((
+                                "wrong-location",
+                                format!(
+                                    "expected location {}:{}:{}..{}, observed {}",
+                                    file_name, want_line, ASSERT_COL, t.assert_line_len, d
+                                ),
+                            ))
+                        } else if t.custom_msg && !msg.contains(CUSTOM_MSG) {
+                            Some(("wrong-message", format!("custom message \"{}\" not reported: {}", CUSTOM_MSG, d)))
+                        } else if !t.custom_msg && !norm(&msg).contains(&norm(&t.expr)) {
+                            Some(("wrong-message", format!("the failing expression `{}` is not reported: {}", t.expr, d)))
+                        } else {
+                            None
+                        }
+                    }
+                }
+            }
+            _ => Some(("no-verdict", format!("expected {}, observed {}", t.expect.text(), o.text()))),
+        },
+    }
+}
+
+struct BinOut {
+    status: Option<i32>,
+    stdout: String,
+    stderr: String,
+    timed_out: bool,
+}
+
+static SCRATCH_SEQ: AtomicU64 = AtomicU64::new(0);
+
+fn scratch_root(ctx: &Ctx) -> PathBuf {
+    ctx.verif_root.join(".build").join("scratch").join("c18").join(format!("run-{}", std::process::id()))
+}
+
+fn run_bin(ctx: &Ctx, bin: &str, source: &str) -> Result<BinOut, String> {
+    let n = SCRATCH_SEQ.fetch_add(1, Ordering::Relaxed);
+    let dir = scratch_root(ctx).join(format!("{}", n));
+    std::fs::create_dir_all(&dir).map_err(|e| format!("mkdir {}: {}", dir.display(), e))?;
+    std::fs::write(dir.join("main.asm"), source).map_err(|e| e.to_string())?;
+    let out_path = dir.join("stdout.txt");
+    let err_path = dir.join("stderr.txt");
+    let out_f = std::fs::File::create(&out_path).map_err(|e| e.to_string())?;
+    let err_f = std::fs::File::create(&err_path).map_err(|e| e.to_string())?;
+    let mut child = std::process::Command::new(bin)
+        .args(["-e", "Short", "--no-color", "test"])
+        .current_dir(&dir)
+        .stdin(std::process::Stdio::null())
+        .stdout(out_f)
+        .stderr(err_f)
+        .spawn()
+        .map_err(|e| format!("spawn {}: {}", bin, e))?;
+    let start = std::time::Instant::now();
+    let mut timed_out = false;
+    let status = loop {
+        match child.try_wait() {
+            Ok(Some(st)) => break st.code(),
+            Ok(None) => {
+                if start.elapsed().as_millis() as u64 > BIN_TIMEOUT_MS {
+                    let _ = child.kill();
+                    let _ = child.wait();
+                    timed_out = true;
+                    break None;
+                }
+                std::thread::sleep(std::time::Duration::from_millis(if start.elapsed().as_millis() < 50 { 1 } else { 10 }));
+            }
+            Err(e) => return Err(format!("wait: {}", e)),
+        }
+    };
+    let stdout = std::fs::read_to_string(&out_path).unwrap_or_default();
+    let stderr = std::fs::read_to_string(&err_path).unwrap_or_default();
+    let _ = std::fs::remove_dir_all(&dir);
+    Ok(BinOut { status, stdout, stderr, timed_out })
+}
+
+/// Output of `mos test` -> per test name (verdict, diagnostic).
+/// The per-test lines (`test 'x' ... ok|failed`, `test: x`) are log output (stderr in the shipped
+/// binary; accepted on either stream); the located diagnostics are taken from STDOUT only, and the
+/// i-th diagnostic belongs to the i-th `test: <name>` block (both follow the order of failures).
+fn parse_bin_output(stdout: &str, stderr: &str) -> HashMap<String, Observed> {
+    let mut map: HashMap<String, Observed> = HashMap::new();
+    let mut failed_order: Vec<String> = vec![];
+    for l in stderr.lines().chain(stdout.lines()) {
+        if let Some(rest) = l.strip_prefix("test '") {
+            if let Some(q) = rest.find("' ... ") {
+                let name = rest[..q].to_string();
+                let tail = &rest[q + 6..];
+                let verdict = if tail.starts_with("ok") {
+                    Verdict::Pass
+                } else if tail.starts_with("failed") {
+                    Verdict::Fail
+                } else {
+                    Verdict::Missing
+                };
+                map.insert(name, Observed { verdict, diag: None });
+            }
+        } else if let Some(name) = l.strip_prefix("test: ") {
+            failed_order.push(name.trim().to_string());
+        }
+    }
+    let diags: Vec<&str> = stdout.lines().filter(|l| parse_diag(l).is_some()).collect();
+    for (i, name) in failed_order.iter().enumerate() {
+        if let (Some(o), Some(d)) = (map.get_mut(name), diags.get(i)) {
+            o.diag = Some(d.trim().to_string());
+        }
+    }
+    map
+}
+
+// ------------------------------------------------------------------------------------------
+// a file with tests, checked in-process and/or through the binary
+// ------------------------------------------------------------------------------------------
+
+#[derive(Clone, Debug)]
+struct FileCase {
+    source: String,
+    tests: Vec<TestExp>,
+}
+
+impl FileCase {
+    fn case_json(&self, via: &str, focus: Option<&str>) -> Value {
+        json!({
+            "via": via,
+            "focus": focus,
+            "source": self.source,
+            "tests": self.tests.iter().map(|t| t.to_json()).collect::<Vec<_>>(),
+        })
+    }
+}
+
+fn flat(source: &str) -> String {
+    source
+        .lines()
+        .map(|l| l.trim())
+        .filter(|l| !l.is_empty())
+        .collect::<Vec<_>>()
+        .join(" / ")
+}
+
+fn report(ctx: &Ctx, t: &TestExp, class: &str, why: &str, via: &str, case: Value, source: &str) {
+    let sig = format!("{}:{}:{}", t.sig_prefix, t.expect.visit_tag(), class);
+    let what = format!("[{}] test '{}': {} | expected {} | source: {}", via, t.path, why, t.expect.text(), flat(source));
+    ctx.finding(Finding::new(sig, what, case));
+}
+
+/// Runs the file through the real binary and judges every test + the exit status.
+/// Returns false when the binary could not be run (machinery).
+fn check_bin(ctx: &Ctx, bin: &str, fc: &FileCase, local: &mut BTreeMap<String, u64>) -> bool {
+    let out = match run_bin(ctx, bin, &fc.source) {
+        Ok(o) => o,
+        Err(e) => {
+            ctx.note(format!("real binary could not be run: {}", e));
+            return false;
+        }
+    };
+    *local.entry("bin_processes".into()).or_insert(0) += 1;
+    if out.timed_out {
+        let t = &fc.tests[0];
+        report(
+            ctx,
+            t,
+            "no-verdict",
+            &format!("`mos test` did not finish within {} ms", BIN_TIMEOUT_MS),
+            "bin",
+            fc.case_json("bin", None),
+            &fc.source,
+        );
+        return true;
+    }
+    let parsed = parse_bin_output(&out.stdout, &out.stderr);
+    let mut printed_failed = 0;
+    let mut all_agree = true;
+    for t in &fc.tests {
+        *local.entry("bin_tests".into()).or_insert(0) += 1;
+        let o = parsed.get(&t.path).cloned().unwrap_or(Observed { verdict: Verdict::Missing, diag: None });
+        if o.verdict == Verdict::Fail {
+            printed_failed += 1;
+        }
+        match &t.expect {
+            Expect::Pass => *local.entry("bin_expected_pass".into()).or_insert(0) += 1,
+            Expect::Fail(_) => *local.entry("bin_expected_fail".into()).or_insert(0) += 1,
+            Expect::NoVerdict => {}
+        }
+        if let Some((class, why)) = judge(t, &o, "main.asm") {
+            all_agree = false;
+            let mut case = fc.case_json("bin", Some(&t.path));
+            case["observed_stdout"] = json!(out.stdout);
+            case["observed_stderr"] = json!(out.stderr);
+            case["observed_status"] = json!(out.status);
+            report(ctx, t, class, &why, "bin", case, &fc.source);
+        }
+    }
+    // exit status: non-zero iff at least one test failed (as printed; disagreement of a printed
+    // verdict with the reference is reported above under its own class)
+    let nonzero = out.status.map(|s| s != 0).unwrap_or(true);
+    let expected_fail = fc.tests.iter().any(|t| matches!(t.expect, Expect::Fail(_)));
+    let inconsistent = nonzero != (printed_failed > 0) || (all_agree && nonzero != expected_fail);
+    if out.status.is_none() || inconsistent {
+        let t = &fc.tests[0];
+        let mut case = fc.case_json("bin", None);
+        case["observed_stdout"] = json!(out.stdout);
+        case["observed_stderr"] = json!(out.stderr);
+        case["observed_status"] = json!(out.status);
+        report(
+            ctx,
+            t,
+            "exit-status",
+            &format!(
+                "exit status {:?} with {} test(s) printed as failed ({} expected to fail)",
+                out.status,
+                printed_failed,
+                fc.tests.iter().filter(|t| matches!(t.expect, Expect::Fail(_))).count()
+            ),
+            "bin",
+            case,
+            &fc.source,
+        );
+    } else {
+        *local.entry(if nonzero { "bin_exit_nonzero".to_string() } else { "bin_exit_zero".to_string() }).or_insert(0) += 1;
+    }
+    true
+}
+
+// ------------------------------------------------------------------------------------------
+// frame cases
+// ------------------------------------------------------------------------------------------
+
+#[derive(Clone, Debug)]
+struct FrameCase {
+    frame: Frame,
+    body: Vec<usize>,
+    /// (gap index, kind, visit n the value was taken from, truth at that visit, custom message)
+    assertion: Option<(usize, Kind, usize, bool, bool)>,
+    pred: Option<Pred>,
+    expect: Expect,
+}
+
+impl FrameCase {
+    fn kind(&self) -> Kind {
+        self.assertion.map(|a| a.1).unwrap_or(Kind::None)
+    }
+    fn desc(&self, p: &Prog) -> Value {
+        json!({
+            "frame": self.frame.name(),
+            "body": self.body.iter().map(|b| ALPHA[*b].text()).collect::<Vec<_>>(),
+            "gap": self.assertion.map(|a| p.gaps[a.0].0.clone()),
+            "kind": self.kind().name(),
+            "value_from_visit": self.assertion.map(|a| a.2),
+            "true_at_that_visit": self.assertion.map(|a| a.3),
+            "custom_msg": self.assertion.map(|a| a.4),
+        })
+    }
+    /// Renders the case as one test named `name`, appended to `lines`.
+    fn render_into(&self, lines: &mut Vec<String>, p: &Prog, name: &str, wrap_name: &str) -> TestExp {
+        let wrap = if self.kind() == Kind::Const { Some(wrap_name) } else { None };
+        let expr = self.pred.map(|p| p.expr()).unwrap_or_default();
+        let assertion = self.assertion.map(|a| (a.0, expr.as_str(), a.4));
+        let assert_line = render_test(lines, p, assertion, name, wrap);
+        let assert_line_len = assert_line.map(|l| lines[l - 1].len()).unwrap_or(0);
+        TestExp {
+            path: match wrap {
+                Some(w) => format!("{}.{}", w, name),
+                None => name.to_string(),
+            },
+            expect: self.expect.clone(),
+            assert_line,
+            assert_line_len,
+            expr,
+            custom_msg: self.assertion.map(|a| a.4).unwrap_or(false),
+            sig_prefix: format!("verdict:{}:{}", self.frame.name(), self.kind().name()),
+            desc: self.desc(p),
+        }
+    }
+    fn single_file(&self, p: &Prog) -> FileCase {
+        let mut lines = vec![];
+        if self.kind() == Kind::Const {
+            lines.push(".const c = 7".to_string());
+        }
+        let t = self.render_into(&mut lines, p, "t", "outer");
+        FileCase { source: lines.join("\n") + "\n", tests: vec![t] }
+    }
+}
+
+fn expectation(pred: Pred, visits: &[St], terminated: bool) -> Expect {
+    for (i, s) in visits.iter().enumerate() {
+        if !pred.holds(s) {
+            return Expect::Fail(i + 1);
+        }
+    }
+    if terminated {
+        Expect::Pass
+    } else {
+        Expect::NoVerdict
+    }
+}
+
+/// All cases of one (frame, body) unit, in a fixed order.
+fn unit_cases(frame: Frame, body: &[usize], p: &Prog, r: &RefRun) -> Vec<FrameCase> {
+    let mut cases = vec![];
+    cases.push(FrameCase {
+        frame,
+        body: body.to_vec(),
+        assertion: None,
+        pred: None,
+        expect: if r.terminated { Expect::Pass } else { Expect::NoVerdict },
+    });
+    for g in 0..p.gaps.len() {
+        let visits = &r.visits[g];
+        if visits.is_empty() {
+            continue; // never reached (only behind a non-terminating loop): nothing is encountered
+        }
+        let mut seen: BTreeSet<String> = BTreeSet::new();
+        for kind in KINDS.iter().copied() {
+            let ns: &[usize] = if kind.state_dependent() && visits.len() >= 2 { &[1, 2] } else { &[1] };
+            for n in ns.iter().copied() {
+                for truth in [true, false] {
+                    let pred = make_pred(kind, &visits[n - 1], truth);
+                    // the same assertion text can arise from visit 1 and visit 2: keep the first
+                    if !seen.insert(pred.expr()) {
+                        continue;
+                    }
+                    let expect = expectation(pred, visits, r.terminated);
+                    for custom in [false, true] {
+                        cases.push(FrameCase {
+                            frame,
+                            body: body.to_vec(),
+                            assertion: Some((g, kind, n, truth, custom)),
+                            pred: Some(pred),
+                            expect: expect.clone(),
+                        });
+                    }
+                }
+            }
+        }
+    }
+    cases
+}
+
+fn bodies(k: usize) -> Vec<Vec<usize>> {
+    let mut all: Vec<Vec<usize>> = vec![vec![]];
+    let mut layer: Vec<Vec<usize>> = vec![vec![]];
+    for _ in 0..k {
+        let mut next = vec![];
+        for b in &layer {
+            for i in 0..ALPHA.len() {
+                let mut nb = b.clone();
+                nb.push(i);
+                next.push(nb);
+            }
+        }
+        all.extend(next.iter().cloned());
+        layer = next;
+    }
+    all
+}
+
+/// key of a real-binary representative (quick tier): one per frame x kind x truth x visit x verdict
+type RepKey = (Frame, Kind, bool, usize, bool);
+
+struct UnitOut {
+    reps: BTreeMap<RepKey, (usize, usize, FrameCase)>,
+    sampled: Vec<FrameCase>,
+    counters: BTreeMap<String, u64>,
+    outcomes: BTreeSet<String>,
+    machinery: Option<String>,
+}
+
+fn run_unit(ctx: &Ctx, unit_idx: usize, frame: Frame, body: &[usize], sample_every: Option<usize>) -> UnitOut {
+    let mut out = UnitOut {
+        reps: BTreeMap::new(),
+        sampled: vec![],
+        counters: BTreeMap::new(),
+        outcomes: BTreeSet::new(),
+        machinery: None,
+    };
+    let p = layout(build_items(frame, body), BASE);
+    let r = reference(&p, St::zeros(), BASE);
+    // self-check: what the assertions can observe must not depend on the initial machine state
+    let r2 = reference(&p, St::ones(), BASE);
+    let same = r.terminated == r2.terminated
+        && r.visits.len() == r2.visits.len()
+        && r.visits.iter().zip(r2.visits.iter()).all(|(a, b)| {
+            a.len() == b.len() && a.iter().zip(b.iter()).all(|(x, y)| x.observable() == y.observable())
+        });
+    if !same {
+        out.machinery = Some(format!(
+            "reference run depends on the initial state: frame {} body {:?}",
+            frame.name(),
+            body
+        ));
+        return out;
+    }
+    let mut counters: BTreeMap<String, u64> = BTreeMap::new();
+    let mut outcomes: BTreeSet<String> = BTreeSet::new();
+    let mut c = |k: &str| *counters.entry(k.to_string()).or_insert(0) += 1;
+    c("programs");
+    if r.terminated {
+        c("programs_reaching_brk");
+    } else {
+        c("programs_not_reaching_brk_in_budget");
+    }
+    let cases = unit_cases(frame, body, &p, &r);
+    let mut strata: HashMap<(Kind, bool), usize> = HashMap::new();
+    for (ci, case) in cases.iter().enumerate() {
+        let mut c = |k: &str| *counters.entry(k.to_string()).or_insert(0) += 1;
+        if case.expect == Expect::NoVerdict {
+            // never fails, never reaches BRK: statement silent; the real runner would not return
+            c("cases_without_verdict_not_run");
+            continue;
+        }
+        let fc = case.single_file(&p);
+        let t = &fc.tests[0];
+        let o = run_inproc(&fc.source, &t.path);
+        ctx.eval(|| json!({"source": fc.source, "expected": t.expect.text(), "observed": o.text(), "desc": t.desc}));
+        match &o.verdict {
+            Verdict::Error(_) | Verdict::Panic(_) => c("inproc_not_assembled_or_crashed"),
+            _ => c("inproc_assembled_and_run"),
+        }
+        match &case.expect {
+            Expect::Pass => c("expected_pass"),
+            Expect::Fail(1) => c("expected_fail_at_visit_1"),
+            Expect::Fail(2) => c("expected_fail_at_visit_2"),
+            Expect::Fail(_) => c("expected_fail_at_visit_3plus"),
+            Expect::NoVerdict => {}
+        }
+        if !r.terminated {
+            c("expected_fail_in_program_not_reaching_brk");
+        }
+        if let Some((g, kind, _, _, _)) = case.assertion {
+            let visits = &r.visits[g];
+            if visits.len() >= 2 {
+                c("assertion_visited_more_than_once");
+                let pr = case.pred.unwrap();
+                match (pr.holds(&visits[0]), pr.holds(&visits[1])) {
+                    (true, false) => c("flip_true_then_false"),
+                    (false, true) => c("flip_false_then_true"),
+                    _ => {}
+                }
+            }
+            // non-trivial: the verdict was produced by the real runner for an assertion that is
+            // dynamically encountered (all kept gaps are) and the program assembled
+            if matches!(o.verdict, Verdict::Pass | Verdict::Fail | Verdict::Running) {
+                ctx.nontrivial(fnv_str(&fc.source));
+            }
+            let _ = kind;
+        }
+        outcomes.insert(match (&o.verdict, &o.diag) {
+            (Verdict::Fail, Some(d)) => match parse_diag(d) {
+                Some((_, _, col, msg)) => format!(
+                    "fail:col{}:{}",
+                    col,
+                    if msg.contains(CUSTOM_MSG) { "custom-message" } else { "default-message" }
+                ),
+                None => "fail:unparsable".into(),
+            },
+            (v, _) => format!("{:?}", v).split('(').next().unwrap_or("").to_lowercase(),
+        });
+        if let Some((class, why)) = judge(t, &o, "test.asm") {
+            let mut cj = fc.case_json("inproc", Some(&t.path));
+            cj["observed"] = json!(o.text());
+            report(ctx, t, class, &why, "inproc", cj, &fc.source);
+            c("inproc_disagreements");
+        }
+        // candidates for the real binary: only programs that reach BRK in the reference (so the
+        // process terminates whatever the runner does with the assertion)
+        if r.terminated {
+            let (kind, n, truth) = case.assertion.map(|a| (a.1, a.2, a.3)).unwrap_or((Kind::None, 1, true));
+            let key: RepKey = (frame, kind, truth, n, case.expect == Expect::Pass);
+            out.reps.entry(key).or_insert((unit_idx, ci, case.clone()));
+            if let Some(every) = sample_every {
+                let s = strata.entry((kind, truth)).or_insert(0);
+                if (*s + unit_idx) % every == 0 {
+                    out.sampled.push(case.clone());
+                }
+                *s += 1;
+            }
+        }
+    }
+    out.counters = counters;
+    out.outcomes = outcomes;
+    out
+}
+
+// ------------------------------------------------------------------------------------------
+// bank isolation cases
+// ------------------------------------------------------------------------------------------
+
+#[derive(Clone, Copy, Debug, PartialEq, Eq, PartialOrd, Ord)]
+enum BankForm {
+    OwnEq,
+    OwnEqOther,
+    Own16,
+    Own16Other,
+    OwnLabel,
+    OwnLabelOther,
+    PcTrue,
+    PcFalse,
+    OtherNe,
+    OtherEq,
+}
+
+const BANK_FORMS: [BankForm; 10] = [
+    BankForm::OwnEq,
+    BankForm::OwnEqOther,
+    BankForm::Own16,
+    BankForm::Own16Other,
+    BankForm::OwnLabel,
+    BankForm::OwnLabelOther,
+    BankForm::PcTrue,
+    BankForm::PcFalse,
+    BankForm::OtherNe,
+    BankForm::OtherEq,
+];
+
+impl BankForm {
+    fn name(self) -> &'static str {
+        match self {
+            BankForm::OwnEq => "ram-own==own",
+            BankForm::OwnEqOther => "ram-own==other",
+            BankForm::Own16 => "ram16-own==own",
+            BankForm::Own16Other => "ram16-own==other",
+            BankForm::OwnLabel => "ram-label==own",
+            BankForm::OwnLabelOther => "ram-label==other",
+            BankForm::PcTrue => "pc==here",
+            BankForm::PcFalse => "pc==here+1",
+            BankForm::OtherNe => "ram-other-addr!=other",
+            BankForm::OtherEq => "ram-other-addr==other",
+        }
+    }
+    fn passes(self) -> bool {
+        matches!(
+            self,
+            BankForm::OwnEq | BankForm::Own16 | BankForm::OwnLabel | BankForm::PcTrue | BankForm::OtherNe
+        )
+    }
+    fn needs_distinct_addresses(self) -> bool {
+        matches!(self, BankForm::OtherNe | BankForm::OtherEq)
+    }
+}
+
+struct BankSide {
+    bank: &'static str,
+    segment: &'static str,
+    label: &'static str,
+    test: &'static str,
+    data: [u8; 2],
+    start: u16,
+}
+
+fn bank_sides(same_start: bool) -> [BankSide; 2] {
+    [
+        BankSide { bank: "a", segment: "sa", label: "da", test: "ta", data: [0x11, 0x47], start: 0x2000 },
+        BankSide {
+            bank: "b",
+            segment: "sb",
+            label: "db",
+            test: "tb",
+            data: [0x22, 0x58],
+            start: if same_start { 0x2000 } else { 0x3000 },
+        },
+    ]
+}
+
+/// `forms[i]` = assertion of test i (0 = ta, 1 = tb) placed directly before its `brk`.
+fn bank_file(same_start: bool, b_first: bool, body: &[usize], forms: [Option<(BankForm, bool)>; 2]) -> FileCase {
+    let sides = bank_sides(same_start);
+    let order: [usize; 2] = if b_first { [1, 0] } else { [0, 1] };
+    let mut lines: Vec<String> = vec![];
+    for i in order {
+        lines.push(format!(".define bank {{ name = \"{}\" }}", sides[i].bank));
+    }
+    for i in order {
+        lines.push(format!(
+            ".define segment {{ name = \"{}\" bank = \"{}\" start = ${:04x} }}",
+            sides[i].segment, sides[i].bank, sides[i].start
+        ));
+    }
+    let mut tests: Vec<Option<TestExp>> = vec![None, None];
+    for i in order {
+        let me = &sides[i];
+        let other = &sides[1 - i];
+        lines.push(format!(".segment \"{}\" {{", me.segment));
+        lines.push(format!("{}: .byte ${:02x}, ${:02x}", me.label, me.data[0], me.data[1]));
+        let p = layout(build_items(Frame::Straight, body), me.start + 2);
+        let last_gap = p.gaps.len() - 1;
+        let w16 = |d: [u8; 2]| d[0] as u32 + 256 * d[1] as u32;
+        let expr = forms[i].map(|(f, _)| match f {
+            BankForm::OwnEq => format!("ram(${:04x}) == ${:02x}", me.start, me.data[0]),
+            BankForm::OwnEqOther => format!("ram(${:04x}) == ${:02x}", me.start, other.data[0]),
+            BankForm::Own16 => format!("ram16(${:04x}) == ${:04x}", me.start, w16(me.data)),
+            BankForm::Own16Other => format!("ram16(${:04x}) == ${:04x}", me.start, w16(other.data)),
+            BankForm::OwnLabel => format!("ram({} + 1) == ${:02x}", me.label, me.data[1]),
+            BankForm::OwnLabelOther => format!("ram({} + 1) == ${:02x}", me.label, other.data[1]),
+            BankForm::PcTrue => format!("* == ${:04x}", p.gaps[last_gap].1),
+            BankForm::PcFalse => format!("* == ${:04x}", p.gaps[last_gap].1 + 1),
+            BankForm::OtherNe => format!("ram(${:04x}) != ${:02x}", other.start, other.data[0]),
+            BankForm::OtherEq => format!("ram(${:04x}) == ${:02x}", other.start, other.data[0]),
+        });
+        let assertion = match (&expr, forms[i]) {
+            (Some(e), Some((_, custom))) => Some((last_gap, e.as_str(), custom)),
+            _ => None,
+        };
+        let assert_line = render_test(&mut lines, &p, assertion, me.test, None);
+        lines.push("}".into());
+        let expect = match forms[i] {
+            None => Expect::Pass,
+            Some((f, _)) if f.passes() => Expect::Pass,
+            Some(_) => Expect::Fail(1),
+        };
+        tests[i] = Some(TestExp {
+            path: me.test.to_string(),
+            expect,
+            assert_line,
+            assert_line_len: assert_line.map(|l| lines[l - 1].len()).unwrap_or(0),
+            expr: expr.clone().unwrap_or_default(),
+            custom_msg: forms[i].map(|f| f.1).unwrap_or(false),
+            sig_prefix: format!("verdict:bank:{}", forms[i].map(|f| f.0.name()).unwrap_or("none")),
+            desc: json!({
+                "group": "bank", "same_start": same_start, "b_first": b_first, "test": me.test,
+                "form": forms[i].map(|f| f.0.name()),
+                "body": body.iter().map(|b| ALPHA[*b].text()).collect::<Vec<_>>(),
+            }),
+        });
+    }
+    FileCase {
+        source: lines.join("\n") + "\n",
+        tests: tests.into_iter().map(|t| t.unwrap()).collect(),
+    }
+}
+
+fn run_bank_inproc(ctx: &Ctx, k: usize) -> BTreeMap<String, u64> {
+    let mut units = vec![];
+    for same_start in [true, false] {
+        for b_first in [false, true] {
+            for body in bodies(k) {
+                units.push((same_start, b_first, body));
+            }
+        }
+    }
+    let locals: Vec<BTreeMap<String, u64>> = units
+        .par_iter()
+        .map(|(same_start, b_first, body)| {
+            let mut local: BTreeMap<String, u64> = BTreeMap::new();
+            for test in 0..2usize {
+                for form in BANK_FORMS.iter().copied() {
+                    if form.needs_distinct_addresses() && *same_start {
+                        continue;
+                    }
+                    for custom in [false, true] {
+                        let mut forms = [None, None];
+                        forms[test] = Some((form, custom));
+                        let fc = bank_file(*same_start, *b_first, body, forms);
+                        let t = &fc.tests[test];
+                        let o = run_inproc(&fc.source, &t.path);
+                        ctx.eval(|| json!({"source": fc.source, "test": t.path, "expected": t.expect.text(), "observed": o.text()}));
+                        *local.entry("bank_cases".into()).or_insert(0) += 1;
+                        if form.passes() {
+                            *local.entry("bank_expected_pass".into()).or_insert(0) += 1;
+                        } else {
+                            *local.entry("bank_expected_fail".into()).or_insert(0) += 1;
+                        }
+                        if matches!(o.verdict, Verdict::Pass | Verdict::Fail) {
+                            ctx.nontrivial(fnv_str(&format!("{}#{}", fc.source, t.path)));
+                            *local.entry("bank_assembled_and_run".into()).or_insert(0) += 1;
+                        }
+                        if let Some((class, why)) = judge(t, &o, "test.asm") {
+                            let mut cj = fc.case_json("inproc", Some(&t.path));
+                            cj["observed"] = json!(o.text());
+                            report(ctx, t, class, &why, "inproc", cj, &fc.source);
+                        }
+                    }
+                }
+            }
+            local
+        })
+        .collect();
+    let mut merged = BTreeMap::new();
+    for l in locals {
+        for (k, v) in l {
+            *merged.entry(k).or_insert(0) += v;
+        }
+    }
+    merged
+}
+
+/// Both tests carry an assertion: all four verdict combinations, for the exit-status clause.
+fn bank_bin_files(k: usize) -> Vec<FileCase> {
+    let mut files = vec![];
+    for same_start in [true, false] {
+        for b_first in [false, true] {
+            for body in bodies(k) {
+                let mut pairs: Vec<(BankForm, BankForm)> = vec![];
+                for fa in [BankForm::OwnEq, BankForm::OwnEqOther] {
+                    for fb in [BankForm::Own16, BankForm::Own16Other] {
+                        pairs.push((fa, fb));
+                    }
+                }
+                if !same_start {
+                    for fa in [BankForm::OtherNe, BankForm::OtherEq] {
+                        for fb in [BankForm::OtherNe, BankForm::OtherEq] {
+                            pairs.push((fa, fb));
+                        }
+                    }
+                }
+                for (i, (fa, fb)) in pairs.into_iter().enumerate() {
+                    let custom = i % 2 == 1;
+                    files.push(bank_file(same_start, b_first, &body, [Some((fa, custom)), Some((fb, !custom))]));
+                }
+            }
+        }
+    }
+    files
+}
+
+// ------------------------------------------------------------------------------------------
+// replay
+// ------------------------------------------------------------------------------------------
+
+fn replay_case(ctx: &Ctx, case: &Value) -> i32 {
+    let source = match case.get("source").and_then(|s| s.as_str()) {
+        Some(s) => s.to_string(),
+        None => {
+            eprintln!("C18 replay: case has no `source`");
+            return 2;
+        }
+    };
+    let tests: Vec<TestExp> = case
+        .get("tests")
+        .and_then(|t| t.as_array())
+        .map(|a| a.iter().filter_map(TestExp::from_json).collect())
+        .unwrap_or_default();
+    let focus = case.get("focus").and_then(|f| f.as_str()).map(|s| s.to_string());
+    println!("C18 replay (via = {})", case.get("via").and_then(|v| v.as_str()).unwrap_or("?"));
+    println!("---- main.asm ----");
+    for (i, l) in source.lines().enumerate() {
+        println!("{:3}  {}", i + 1, l);
+    }
+    println!("------------------");
+    let mut disagreements = 0;
+    for t in &tests {
+        let mark = if focus.as_deref() == Some(&t.path) { " <== case" } else { "" };
+        println!("test '{}'{}", t.path, mark);
+        println!(
+            "  reference : {}{}",
+            t.expect.text(),
+            match t.assert_line {
+                Some(l) => format!(" (`.assert {}` on line {})", t.expr, l),
+                None => String::new(),
+            }
+        );
+        let o = run_inproc(&source, &t.path);
+        println!("  TestRunner: {}", o.text());
+        if let Some((class, why)) = judge(t, &o, "test.asm") {
+            println!("  => {}: {}", class, why);
+            disagreements += 1;
+        }
+    }
+    let bin = std::env::var("MOS_BIN").unwrap_or_else(|_| "/verif/.build/bin/release/mos".into());
+    if Path::new(&bin).exists() {
+        match run_bin(ctx, &bin, &source) {
+            Ok(out) => {
+                println!("---- `mos -e Short --no-color test` (exit status {:?}{}) ----", out.status, if out.timed_out { ", TIMED OUT" } else { "" });
+                print!("{}", out.stdout);
+                if !out.stderr.trim().is_empty() {
+                    println!("---- stderr ----");
+                    print!("{}", out.stderr);
+                }
+                println!("------------------");
+                let parsed = parse_bin_output(&out.stdout, &out.stderr);
+                for t in &tests {
+                    let o = parsed.get(&t.path).cloned().unwrap_or(Observed { verdict: Verdict::Missing, diag: None });
+                    if let Some((class, why)) = judge(t, &o, "main.asm") {
+                        println!("  binary, test '{}' => {}: {}", t.path, class, why);
+                        disagreements += 1;
+                    }
+                }
+                let expected_fail = tests.iter().any(|t| matches!(t.expect, Expect::Fail(_)));
+                println!(
+                    "  exit status {:?}; reference expects {}",
+                    out.status,
+                    if expected_fail { "non-zero (a test fails)" } else { "0 (all tests pass)" }
+                );
+                if out.status.map(|s| s != 0).unwrap_or(true) != expected_fail {
+                    disagreements += 1;
+                }
+            }
+            Err(e) => println!("real binary not run: {}", e),
+        }
+        let _ = std::fs::remove_dir_all(scratch_root(ctx));
+    } else {
+        println!("real binary {} not found; in-process result only", bin);
+    }
+    if disagreements > 0 {
+        println!("REPRODUCED: {} disagreement(s) with the reference", disagreements);
+        1
+    } else {
+        println!("not reproduced: the real code agrees with the reference on this case");
+        0
+    }
+}
+
+// ------------------------------------------------------------------------------------------
+// entry
+// ------------------------------------------------------------------------------------------
+
+fn batch_files(cases: &[FrameCase]) -> Vec<FileCase> {
+    cases
+        .chunks(BATCH)
+        .map(|chunk| {
+            let mut lines: Vec<String> = vec![];
+            if chunk.iter().any(|c| c.kind() == Kind::Const) {
+                lines.push(".const c = 7".into());
+            }
+            let mut tests = vec![];
+            for (i, case) in chunk.iter().enumerate() {
+                let p = layout(build_items(case.frame, &case.body), BASE);
+                tests.push(case.render_into(&mut lines, &p, &format!("t{}", i), &format!("outer{}", i)));
+            }
+            FileCase { source: lines.join("\n") + "\n", tests }
+        })
+        .collect()
+}
+
+pub fn run(ctx: &Ctx, replay: Option<&Value>) -> i32 {
+    if let Some(case) = replay {
+        return replay_case(ctx, case);
+    }
+    let thorough = ctx.tier.is_thorough();
+    let k = if thorough { 3 } else { 2 };
+    let bank_k = if thorough { 2 } else { 1 };
+    let bank_bin_k = if thorough { 1 } else { 0 };
+
+    // ---- frames, in-process ---------------------------------------------------------------
+    let mut units: Vec<(Frame, Vec<usize>)> = vec![];
+    for frame in [Frame::Straight, Frame::Loop, Frame::Sub] {
+        for b in bodies(k) {
+            units.push((frame, b));
+        }
+    }
+    let sample_every = if thorough { Some(10) } else { None };
+    let outs: Vec<UnitOut> = units
+        .par_iter()
+        .enumerate()
+        .map(|(i, (frame, body))| run_unit(ctx, i, *frame, body, sample_every))
+        .collect();
+    let mut reps: BTreeMap<RepKey, (usize, usize, FrameCase)> = BTreeMap::new();
+    let mut sampled: Vec<FrameCase> = vec![];
+    let mut outcomes: BTreeSet<String> = BTreeSet::new();
+    for o in outs {
+        if let Some(m) = o.machinery {
+            eprintln!("C18 machinery error: {}", m);
+            return 2;
+        }
+        ctx.merge_counters(&o.counters);
+        outcomes.extend(o.outcomes);
+        sampled.extend(o.sampled);
+        for (key, v) in o.reps {
+            match reps.get(&key) {
+                Some(old) if (old.0, old.1) <= (v.0, v.1) => {}
+                _ => {
+                    reps.insert(key, v);
+                }
+            }
+        }
+    }
+    ctx.set("seconds_after_frames_inproc", json!(ctx.wall()));
+    ctx.set("bound_body_length", json!(k));
+    ctx.set("frame_units", json!(units.len()));
+    ctx.set("distinct_inproc_outcomes", json!(outcomes.iter().cloned().collect::<Vec<_>>()));
+
+    // ---- banks, in-process ----------------------------------------------------------------
+    let bank_counters = run_bank_inproc(ctx, bank_k);
+    ctx.merge_counters(&bank_counters);
+    ctx.set("seconds_after_banks_inproc", json!(ctx.wall()));
+    ctx.set("bound_bank_body_length", json!(bank_k));
+
+    // ---- real binary ----------------------------------------------------------------------
+    let bin = std::env::var("MOS_BIN").unwrap_or_else(|_| "/verif/.build/bin/release/mos".into());
+    if !Path::new(&bin).exists() {
+        ctx.cap(format!("real binary {} not found: `mos test` conformance part not run", bin));
+    } else {
+        let mut files: Vec<FileCase> = vec![];
+        // representatives: one test per file, so the exit status is that of the single case
+        for (_, (_, _, case)) in reps.iter() {
+            let p = layout(build_items(case.frame, &case.body), BASE);
+            files.push(case.single_file(&p));
+        }
+        ctx.set("bin_representatives", json!(reps.len()));
+        // stratified 10 % (thorough): batched, several tests per file (mixed verdicts per file)
+        let batches = batch_files(&sampled);
+        ctx.set("bin_sampled_cases", json!(sampled.len()));
+        ctx.set("bin_sample_batches", json!(batches.len()));
+        files.extend(batches);
+        let bank_files = bank_bin_files(bank_bin_k);
+        ctx.set("bin_bank_files", json!(bank_files.len()));
+        files.extend(bank_files);
+        let ok = Mutex::new(true);
+        let locals: Vec<BTreeMap<String, u64>> = files
+            .par_iter()
+            .map(|fc| {
+                let mut local = BTreeMap::new();
+                if !check_bin(ctx, &bin, fc, &mut local) {
+                    *ok.lock().unwrap() = false;
+                }
+                ctx.add_evals(fc.tests.len() as u64);
+                local
+            })
+            .collect();
+        for l in locals {
+            ctx.merge_counters(&l);
+        }
+        let _ = std::fs::remove_dir_all(scratch_root(ctx));
+        if !*ok.lock().unwrap() {
+            eprintln!("C18 machinery error: the real binary could not be run");
+            return 2;
+        }
+    }
+
+    ctx.set("seconds_after_real_binary", json!(ctx.wall()));
+    ctx.finish(
+        "exploration",
+        "non-trivial = the program assembled, the real TestRunner was driven on it, and it contains an `.assert` that the reference interpreter reaches at least once (so the verdict depends on emulated machine state); distinct by source text",
+        true,
+        &[
+            "the reference interpreter models exactly the enumerated subset (lda/ldx #, inx, dex, tax, sta/inc zp, adc/sbc/cmp/and #, clc, sec, cld, bne, jsr, rts, brk) in binary mode",
+            "every test starts with `lda #0 / tax / sta $10 / clc / cld`, so no asserted quantity depends on the emulator's initial registers, flags or RAM; V and N are never asserted",
+            "the default segment starts at $c000 as implemented (only `* == here` depends on it; the guide says $2000)",
+            "one `.assert` per test; gaps directly before a jump-target label are excluded (by PC they coincide with the gap after the label; the statement is silent on which of the two readings applies)",
+            "a reported column anywhere between the `.assert` keyword and the end of its line counts as the assertion's location; without a custom message the reported text must contain the asserted expression (modulo whitespace/case)",
+            "programs that do not reach BRK within 6000 reference steps and whose assertion never fails get no verdict and are not run; the real runner is stepped with a cap of 8000 instructions",
+            "an address outside the own bank must merely not show the other bank's byte (its content is otherwise unspecified)",
+            "real-binary part: only programs whose reference run reaches BRK; quick = one representative per frame x kind x truth x visit x verdict in its own directory, thorough additionally every 10th case of each (unit, kind, truth) stratum, 6 tests per file",
+        ],
+    )
 }
